@@ -31,7 +31,16 @@ def analyse(pid: str, root: str, tier: str = "quick"):
     repo = Repo(root)
     report = Report(pid, tier)
     mod = importlib.import_module(f"sa.props.{pid.lower()}")
-    mod.run(repo, report)
+    try:
+        mod.run(repo, report)
+    except AnalysisError as exc:
+        # a violation that was already located (and is not a recorded known finding) stands: the changed shape that
+        # stopped the analysis further on must not turn a verdict into "analysis broken"
+        report.apply_known_findings(VERIF / "known_findings.json")
+        if not report.violations():
+            raise
+        report.note(f"analysis stopped after locating the violation(s): {exc}")
+        return repo, report
     report.enforce_minimums()
     return repo, report
 
